@@ -1134,11 +1134,187 @@ def probe(ctx):
             else:
                 ctx.probe_ok(('big', 'cheb', d))
 
+    # buffer reuse across calls: a result must not be changed by the next call with a different input of the same size
+    probe_buffer_reuse(ctx)
+
     changed = [k for k, v in const_before.items() if not np.array_equal(getattr(importlib.import_module(k[0]), k[1]), v, equal_nan=True)]
     if changed:
         ctx.fail('module-constants', f'module-level arrays changed during the run: {changed}', dict(op='module-constants', changed=[list(k) for k in changed]))
     else:
         ctx.probe_ok(('module-constants', len(const_before)))
+
+
+def probe_buffer_reuse(ctx):
+    """hardening class "buffer reuse across calls" (harness/bufreuse.py): constructors of the same output size called one after the
+    other with different parameters (also across constructors: W/GHZ/Dicke/Wtype kets of one dimension, Werner/Isotropic/… density
+    matrices of one dimension, UPB kinds of one shape); the first result must stay untouched, unshared and what it names"""
+    import itertools
+    import numqi
+    from harness import bufreuse as BR
+    S = numqi.state
+    UD = numqi.unique_determine
+    E = numqi.entangle
+    calls = {
+        'W': S.W, 'GHZ': S.GHZ, 'Bell': S.Bell, 'Dicke': S.Dicke, 'Wtype': lambda c: S.Wtype(np.array(c, dtype=np.float64)),
+        'maximally_entangled_state': S.maximally_entangled_state, 'maximally_coherent_state': S.maximally_coherent_state,
+        'maximally_coherent_state[dm]': lambda d: S.maximally_coherent_state(d, return_dm=True),
+        'Werner': S.Werner, 'Isotropic': S.Isotropic, 'maximally_mixed_state': S.maximally_mixed_state,
+        'get_bes2x4_Horodecki1997': S.get_bes2x4_Horodecki1997, 'get_bes3x3_Horodecki1997': S.get_bes3x3_Horodecki1997, 'get_2qutrit_Antoine2022': S.get_2qutrit_Antoine2022,
+        'get_Werner_eof': lambda d, a: S.get_Werner_eof(d, np.array(a)), 'get_Werner_GME': lambda d, a: S.get_Werner_GME(d, np.array(a)),
+        'get_Isotropic_eof': lambda d, a: S.get_Isotropic_eof(d, np.array(a)), 'get_Isotropic_GME': lambda d, a: S.get_Isotropic_GME(d, np.array(a)),
+        'get_tetrahedron_POVM': numqi.utils.get_tetrahedron_POVM, 'get_element_probing_POVM': UD.get_element_probing_POVM,
+        'get_chebshev_orthonormal': lambda d, al, comp: UD.get_chebshev_orthonormal(d, al, with_computational_basis=comp, return_basis=True),
+        'load_upb': lambda kind, args: E.load_upb(kind, args, ignore_warning=True),
+        'load_upb[product]': lambda kind, args: E.load_upb(kind, args, return_product=True, ignore_warning=True),
+        'load_upb[bes]': lambda kind, args: E.load_upb(kind, args, return_bes=True, ignore_warning=True),
+    }
+
+    def ket_ref(name, args):
+        if name == 'W':
+            v = np.zeros(2 ** args[0]); v[2 ** np.arange(args[0])] = args[0] ** -0.5; return v
+        if name == 'GHZ':
+            v = np.zeros(2 ** args[0]); v[[0, -1]] = 2 ** -0.5; return v
+        if name == 'Bell':
+            return np.array([[1, 0, 0, 1], [1, 0, 0, -1], [0, 1, 1, 0], [0, 1, -1, 0]][args[0]]) / math.sqrt(2)
+        if name == 'Wtype':
+            c = np.array(args[0], dtype=np.float64); v = np.zeros(2 ** len(c)); v[2 ** np.arange(len(c))] = c / np.linalg.norm(c); return v
+        if name == 'maximally_entangled_state':
+            return np.eye(args[0]).reshape(-1) / math.sqrt(args[0])
+        if name == 'maximally_coherent_state':
+            return np.ones(args[0]) / math.sqrt(args[0])
+        if name == 'Dicke':
+            dim, n = len(args), sum(args)
+            v = np.zeros(dim ** n)
+            for digits in itertools.product(range(dim), repeat=n):
+                if all(digits.count(l) == args[l] for l in range(dim)):
+                    v[sum(dg * dim ** (n - 1 - i) for i, dg in enumerate(digits))] = 1
+            return v / np.linalg.norm(v)
+
+    def dm_ok(rho, dim, ppt=None):
+        rho = np.asarray(rho)
+        if rho.shape != (dim, dim) or abs(np.trace(rho) - 1) > 1e-10 or amax(rho - rho.T.conj()) > 1e-12 or min_eig(rho) < -1e-10:
+            return 'not a density matrix'
+        return None
+
+    def chk(r, a):
+        name, args = a[0], a[1:]
+        base = name.split('[')[0]
+        if base in ('W', 'GHZ', 'Bell', 'Wtype', 'Dicke', 'maximally_entangled_state') or name == 'maximally_coherent_state':
+            want = ket_ref(base, args)
+            return None if np.shape(r) == want.shape and amax(np.asarray(r) - want) <= 1e-14 else f'{name}{args} is not the ket it names'
+        if name == 'maximally_coherent_state[dm]':
+            return None if amax(np.asarray(r) - np.ones((args[0],) * 2) / args[0]) <= 1e-14 else f'{name}{args} is not |+><+|'
+        if name == 'Werner':
+            return None if amax(np.asarray(r) - ref_werner(*args)) <= 1e-13 else f'Werner{args} is not the Werner state'
+        if name == 'Isotropic':
+            return None if amax(np.asarray(r) - ref_isotropic(*args)) <= 1e-13 else f'Isotropic{args} is not the isotropic state'
+        if name == 'maximally_mixed_state':
+            return None if np.shape(r) == (args[0] ** 2,) * 2 and amax(np.asarray(r) - np.eye(args[0] ** 2) / args[0] ** 2) <= 1e-15 else f'maximally_mixed_state{args} != 1/d^2'
+        if name == 'get_bes2x4_Horodecki1997':
+            return None if amax(np.asarray(r) - ref_horodecki2x4(*args)) <= 1e-13 else f'{name}{args} is not the Horodecki 2x4 state'
+        if name == 'get_bes3x3_Horodecki1997':
+            return None if amax(np.asarray(r) - ref_horodecki3x3(*args)) <= 1e-13 else f'{name}{args} is not the Horodecki 3x3 state'
+        if name == 'get_2qutrit_Antoine2022':
+            return dm_ok(r, 9)
+        if name.startswith('get_Werner_') or name.startswith('get_Isotropic_'):
+            fn = getattr(S, name)
+            with np.errstate(all='ignore'):
+                want = np.array([float(fn(args[0], float(x))) for x in args[1]])
+            return None if np.allclose(np.asarray(r, dtype=np.float64), want, rtol=0, atol=1e-14, equal_nan=True) else f'{name}{args} differs from the scalar evaluations'
+        if name == 'get_tetrahedron_POVM':
+            P = np.asarray(r); n = args[0]
+            return None if P.shape == (4 ** n, 2 ** n, 2 ** n) and amax(P.sum(axis=0) - np.eye(2 ** n)) <= 1e-12 and amax(P - P.conj().transpose(0, 2, 1)) <= 1e-14 else f'tetrahedron POVM ({n}) does not resolve the identity'
+        if name == 'get_element_probing_POVM':
+            P = np.asarray(r); kind, dim = args
+            ok = P.ndim == 3 and P.shape[1:] == (dim, dim) and amax(P - P.conj().transpose(0, 2, 1)) <= 1e-14
+            if ok and kind == 'eq8':
+                ok = P.shape[0] == 2 * dim and abs(P[0][0, 0] - 1) <= 1e-14 and np.linalg.matrix_rank(P.reshape(len(P), -1)) == len(P)
+            if ok and kind == 'eq9':
+                ok = amax(np.einsum('aij,ajk->aik', P, P) - P) <= 1e-12 and amax(P.sum(axis=0) - (len(P) // dim) * np.eye(dim)) <= 1e-12
+            return None if ok else f'get_element_probing_POVM{args} is not the {kind} set of dimension {dim}'
+        if name == 'get_chebshev_orthonormal':
+            d, al, comp = args
+            P, Bs = r
+            ok = len(Bs) == (5 if comp else 4) and np.shape(P) == (d * len(Bs), d, d) and all(amax(B.conj() @ B.T - np.eye(d)) <= 1e-10 for B in Bs) \
+                and amax(Bs[2] - Bs[0] * np.exp(1j * al * np.arange(d))) <= 1e-12 and amax(np.asarray(P)[:d] - np.einsum('ai,aj->aij', Bs[0], Bs[0].conj())) <= 1e-12
+            return None if ok else f'get_chebshev_orthonormal{args}: bases not orthonormal / not the alpha={al} family'
+        if base == 'load_upb':
+            kind, ar = args
+            upb = E.load_upb(kind, ar, ignore_warning=True)
+            prod = np.asarray(E.get_upb_product(upb))
+            if name == 'load_upb':
+                return None if len(r) == len(upb) and all(np.shape(x) == np.shape(y) and amax(np.asarray(x) - np.asarray(y)) == 0 for x, y in zip(r, upb)) \
+                    and amax(prod.conj() @ prod.T - np.eye(len(prod))) <= 1e-10 else f'load_upb({upb_label(kind, ar)}) is not the orthonormal product set of a fresh call'
+            if name == 'load_upb[product]':
+                rr = np.asarray(r)
+                return None if rr.shape == prod.shape and amax(rr - prod) <= 1e-14 and amax(rr.conj() @ rr.T - np.eye(len(rr))) <= 1e-10 else f'load_upb({upb_label(kind, ar)}, return_product) is not its orthonormal product set'
+            D = prod.shape[1]
+            want = (np.eye(D) - prod.T @ prod.conj()) / (D - len(prod))
+            ok = isinstance(r, tuple) and len(r) == 2 and len(r[0]) == len(upb) and all(np.shape(x) == np.shape(y) and amax(np.asarray(x) - np.asarray(y)) == 0 for x, y in zip(r[0], upb)) \
+                and np.shape(r[1]) == want.shape and amax(np.asarray(r[1]) - want) <= 1e-12
+            return None if ok else f'load_upb({upb_label(kind, ar)}, return_bes) != (the product set, (1 - sum |v><v|)/(D - n))'
+        return f'no oracle for {name}'
+
+    f = lambda name, *args: calls[name](*args)
+    lab = lambda a: f'{a[0]}{tuple(a[1:])}'
+    js = lambda a: [a[0]] + [list(x) if isinstance(x, (tuple, list)) else x for x in a[1:]]
+    groups = [
+        # kets of dimension 4, 8, 9, 16
+        [('Bell', 0), ('Bell', 3), ('W', 2), ('GHZ', 2), ('Dicke', 1, 1), ('Dicke', 2, 0), ('maximally_entangled_state', 2), ('maximally_coherent_state', 4), ('Wtype', (1.0, 2.0)), ('Wtype', (3.0, -1.0))],
+        [('W', 3), ('GHZ', 3), ('Dicke', 2, 1), ('Dicke', 1, 2), ('Wtype', (1.0, 2.0, 3.0)), ('Wtype', (3.0, 1.0, 1.0)), ('maximally_coherent_state', 8)],
+        [('Dicke', 1, 1, 0), ('Dicke', 0, 1, 1), ('Dicke', 2, 0, 0), ('maximally_entangled_state', 3), ('maximally_coherent_state', 9)],
+        [('W', 4), ('Dicke', 2, 2), ('GHZ', 4), ('Dicke', 1, 3), ('maximally_entangled_state', 4), ('Wtype', (1.0, 1.0, 2.0, 5.0))],
+        # density matrices of dimension 4, 8, 9
+        [('Werner', 2, 0.3), ('Werner', 2, -0.7), ('Isotropic', 2, 0.3), ('Isotropic', 2, 0.9), ('maximally_mixed_state', 2), ('maximally_coherent_state[dm]', 4)],
+        [('get_bes2x4_Horodecki1997', 0.3), ('get_bes2x4_Horodecki1997', 0.8), ('maximally_coherent_state[dm]', 8)],
+        [('Werner', 3, 0.4), ('Werner', 3, -0.2), ('Isotropic', 3, 0.4), ('Isotropic', 3, 0.05), ('get_bes3x3_Horodecki1997', 0.3), ('get_bes3x3_Horodecki1997', 0.6),
+         ('get_2qutrit_Antoine2022', 0.7), ('get_2qutrit_Antoine2022', 1.9), ('maximally_mixed_state', 3), ('maximally_coherent_state[dm]', 9)],
+        # closed-form measures on arrays of one length
+        [('get_Werner_eof', 3, (-1.0, 0.2, 0.5, 1.0)), ('get_Werner_eof', 3, (0.9, 0.4, -0.3, 0.34)), ('get_Werner_GME', 3, (-1.0, 0.2, 0.5, 1.0)), ('get_Werner_GME', 3, (0.9, 0.4, -0.3, 0.34)),
+         ('get_Isotropic_eof', 3, (-0.125, 0.2, 0.5, 1.0)), ('get_Isotropic_eof', 3, (0.9, 0.26, 0.0, 0.3)), ('get_Isotropic_GME', 3, (-0.125, 0.2, 0.5, 1.0)), ('get_Isotropic_GME', 3, (0.9, 0.26, 0.0, 0.3))],
+        # measurement sets
+        [('get_tetrahedron_POVM', 1), ('get_tetrahedron_POVM', 2), ('get_tetrahedron_POVM', 1)],
+        [('get_element_probing_POVM', 'eq8', 4), ('get_element_probing_POVM', 'eq9', 4), ('get_element_probing_POVM', 'eq8', 6), ('get_element_probing_POVM', 'eq9', 6), ('get_element_probing_POVM', 'eq8', 4)],
+        [('get_chebshev_orthonormal', 4, 0.3, False), ('get_chebshev_orthonormal', 4, 0.7, False), ('get_chebshev_orthonormal', 4, 1.1, False)],
+        [('get_chebshev_orthonormal', 5, 0.3, True), ('get_chebshev_orthonormal', 5, 0.9, True)],
+    ]
+    # UPBs: kinds / parameters with the same shapes of the local factors
+    six = [(1.1, 0.7, 0.3, 2.1, 0.9, 4.0), (0.4, 1.2, 2.0, 0.8, 0.5, 1.0)]
+    upbs = [('tiles', None), ('pyramid', None), ('sixparam', six[0]), ('sixparam', six[1]), ('feng4x4', None), ('min4x4', None), ('genshifts', 3), ('feng2x2x2x2', None),
+            ('quadres', 3), ('quadres', 7), ('gentiles1', 4), ('gentiles1', 6), ('gentiles2', (3, 4)), ('gentiles2', (4, 4)), ('genshifts', 5)]
+    by_shape = {}
+    for kind, args in upbs:
+        u = guarded(lambda: E.load_upb(kind, args, ignore_warning=True))
+        if isinstance(u, str):
+            ctx.fail('load_upb' + BR.SUFFIX, f'load_upb({upb_label(kind, args)}) raised {u}', dict(op='buffer-reuse', function='load_upb', history=[upb_label(kind, args)])); continue
+        by_shape.setdefault(tuple(np.shape(x) for x in u), []).append((kind, args))
+    for sig, members in by_shape.items():
+        for variant in ('load_upb', 'load_upb[product]', 'load_upb[bes]'):
+            groups.append([(variant,) + m for m in members] if len(members) > 1 else [(variant,) + members[0], (variant,) + members[0]])
+    ctx.extra['bufreuse_upb_shape_groups'] = {str(k): [upb_label(*m) for m in v] for k, v in by_shape.items()}
+    with np.errstate(all='ignore'):
+        for g in groups:
+            for A, B in zip(g, g[1:] + g[:1]):
+                if A == B and len(g) > 2:
+                    continue
+                BR.run_pair(ctx, A[0].split('[')[0], f, A, B, check=chk, label=lab, jsonable=js)
+
+
+def replay(ctx, payload):
+    """--replay: a `<fn>:result-overwritten-by-next-call` record re-runs the (deterministic) buffer-reuse block only; anything else
+    re-runs the whole probe; reports whether the recorded key fails again"""
+    key = payload.get('key', '')
+    if key.endswith(':result-overwritten-by-next-call'):
+        probe_buffer_reuse(ctx)
+    else:
+        probe(ctx)
+    hit = [x for x in ctx.failures if x['key'] == key]
+    if hit:
+        print(f"replay: {key} still fails: {hit[0]['what']}")
+        print(f'VIOLATION property={ctx.pid} replay={ctx.replay_path}')
+        return 1
+    print(f'replay: {key} no longer fails ({ctx.probe_evals} probe evaluations)')
+    return 0
 
 
 def search(ctx, hints):
